@@ -73,35 +73,115 @@ var condHole = map[string]bool{"select.where": true, "select.having": true, "sel
 type wrapper struct {
 	name string
 	f    func(p sqlgen.X) sqlgen.X
+	// plain is set for the members of the unary-operator family only: the same host without the unary operators.  The
+	// family's oracle is "reported in the plain host => reported under the operators" (one signature per API and class).
+	plain func(p sqlgen.X) sqlgen.X
+}
+
+// unaryOps are the unary operators the parser accepts in an expression.  ast.UnaryOperator lists seven more (~ |/ ||/ !! @
+// postfix ! and Hive's !): the unchanged parser rejects every one of them in front of a call or a parenthesised condition
+// (probed with cmd/probe), so no host can be built for them.
+var unaryOps = []string{"-", "+", "NOT"}
+
+// unaryChains returns every sequence (outermost first) of 1..maxLen unary operators that has at least one sign; the pure NOT
+// chains belong to the boolean wrappers above.
+func unaryChains(maxLen int) [][]string {
+	var out [][]string
+	var rec func(cur []string)
+	rec = func(cur []string) {
+		if len(cur) > 0 {
+			for _, o := range cur {
+				if o != "NOT" {
+					out = append(out, append([]string{}, cur...))
+					break
+				}
+			}
+		}
+		if len(cur) == maxLen {
+			return
+		}
+		for _, o := range unaryOps {
+			rec(append(cur, o))
+		}
+	}
+	rec(nil)
+	return out
+}
+
+func underChain(chain []string, x sqlgen.X) sqlgen.X {
+	for i := len(chain) - 1; i >= 0; i-- {
+		if chain[i] == "NOT" {
+			x = sqlgen.Not(x)
+		} else {
+			x = sqlgen.Neg(chain[i], x)
+		}
+	}
+	return x
+}
+
+// unaryWrappers is the unary-operator family: every chain of unaryChains(maxLen) x the payload directly under it / inside
+// redundant parentheses x three places of the signed operand in the condition (the whole condition, the right operand of a
+// comparison, the right operand of AND).  sqlgen writes a sign above a sign as -(-x), never as the comment opener '--'.
+func unaryWrappers(maxLen int, placed bool) []wrapper {
+	places := []wrapper{
+		{name: "whole", f: func(x sqlgen.X) sqlgen.X { return x }},
+		{name: "cmp-right", f: func(x sqlgen.X) sqlgen.X { return sqlgen.Bin("=", sqlgen.Col("c9"), x) }},
+		{name: "and-right", f: func(x sqlgen.X) sqlgen.X {
+			return sqlgen.Bin("AND", sqlgen.Bin("=", sqlgen.Col("c8"), sqlgen.Int("3")), x)
+		}},
+	}
+	if !placed {
+		places = places[:1]
+	}
+	var out []wrapper
+	for _, chain := range unaryChains(maxLen) {
+		for _, par := range []int{0, 1} {
+			for _, pl := range places {
+				chain, par, pl := chain, par, pl
+				inner := func(p sqlgen.X) sqlgen.X {
+					if par > 0 {
+						return sqlgen.Extra(p, par)
+					}
+					return p
+				}
+				out = append(out, wrapper{
+					name:  fmt.Sprintf("unary:%s/parens=%d/%s", strings.Join(chain, ""), par, pl.name),
+					f:     func(p sqlgen.X) sqlgen.X { return pl.f(underChain(chain, inner(p))) },
+					plain: func(p sqlgen.X) sqlgen.X { return pl.f(inner(p)) },
+				})
+			}
+		}
+	}
+	return out
 }
 
 var wrappers = []wrapper{
-	{"bare", func(p sqlgen.X) sqlgen.X { return p }},
-	{"and-right", func(p sqlgen.X) sqlgen.X {
+	{name: "bare", f: func(p sqlgen.X) sqlgen.X { return p }},
+	{name: "and-right", f: func(p sqlgen.X) sqlgen.X {
 		return sqlgen.Bin("AND", sqlgen.Bin("=", sqlgen.Col("c8"), sqlgen.Int("3")), p)
 	}},
-	{"and-left", func(p sqlgen.X) sqlgen.X {
+	{name: "and-left", f: func(p sqlgen.X) sqlgen.X {
 		return sqlgen.Bin("AND", p, sqlgen.Bin("=", sqlgen.Col("c8"), sqlgen.Int("3")))
 	}},
-	{"or-right", func(p sqlgen.X) sqlgen.X {
+	{name: "or-right", f: func(p sqlgen.X) sqlgen.X {
 		return sqlgen.Bin("OR", sqlgen.Bin("=", sqlgen.Col("c8"), sqlgen.Int("3")), p)
 	}},
-	{"not", func(p sqlgen.X) sqlgen.X { return sqlgen.Not(p) }},
-	{"parens", func(p sqlgen.X) sqlgen.X { return sqlgen.Extra(p, 1) }},
-	{"and-parens", func(p sqlgen.X) sqlgen.X { return sqlgen.Bin("AND", sqlgen.Col("c8"), sqlgen.Extra(p, 2)) }},
-	{"or-left", func(p sqlgen.X) sqlgen.X {
+	{name: "not", f: func(p sqlgen.X) sqlgen.X { return sqlgen.Not(p) }},
+	{name: "parens", f: func(p sqlgen.X) sqlgen.X { return sqlgen.Extra(p, 1) }},
+	{name: "and-parens", f: func(p sqlgen.X) sqlgen.X { return sqlgen.Bin("AND", sqlgen.Col("c8"), sqlgen.Extra(p, 2)) }},
+	{name: "or-left", f: func(p sqlgen.X) sqlgen.X {
 		return sqlgen.Bin("OR", p, sqlgen.Bin("=", sqlgen.Col("c8"), sqlgen.Int("3")))
 	}},
-	{"not-or-left", func(p sqlgen.X) sqlgen.X {
+	{name: "not-or-left", f: func(p sqlgen.X) sqlgen.X {
 		return sqlgen.Bin("OR", sqlgen.Not(sqlgen.Extra(p, 1)), sqlgen.Bin("=", sqlgen.Col("c8"), sqlgen.Int("3")))
 	}},
-	{"chain-leftmost", func(p sqlgen.X) sqlgen.X {
+	{name: "chain-leftmost", f: func(p sqlgen.X) sqlgen.X {
 		return sqlgen.Bin("AND", sqlgen.Bin("AND", p, sqlgen.Col("c7")), sqlgen.Bin("=", sqlgen.Col("c8"), sqlgen.Int("3")))
 	}},
-	{"deep", func(p sqlgen.X) sqlgen.X {
+	{name: "deep", f: func(p sqlgen.X) sqlgen.X {
 		return sqlgen.Bin("AND", sqlgen.Col("c8"), sqlgen.Bin("OR", sqlgen.Col("c7"), sqlgen.Bin("AND", sqlgen.Not(sqlgen.Col("c6")), p)))
 	}},
-	{"deep-left", func(p sqlgen.X) sqlgen.X {
+	{name: "deep-left", f: func(p sqlgen.X) sqlgen.X {
 		return sqlgen.Bin("OR", sqlgen.Bin("AND", sqlgen.Bin("OR", p, sqlgen.Col("c6")), sqlgen.Col("c7")), sqlgen.Col("c8"))
 	}},
 }
@@ -527,7 +607,7 @@ func Check() *common.Check {
 		Level: "exploration",
 		// every case is recorded before it runs: a fatal error or a hang of the worker is attributed to it
 		CrashSafe: true,
-		Rule: "scripts: every ordered script of 2 statements over 26 statements (two clean ones, 12 payloads as the WHERE condition of a SELECT and of a DELETE) and of 3 statements over six of them - counts equal the findings listed for every API and threshold, and the tree scanner reports for a script exactly what it reports for its statements one by one; 18 payloads built from the documented ones (4 tautologies, 3 time-delay calls, 3 dangerous calls, 4 other spellings of those names, 4 nestings of one call inside the arguments of another) x every expression hole of the model grammar (condition payloads only in the 17 condition holes, each also as operand of AND / OR / NOT and inside redundant parentheses; call payloads in all 49 holes) " +
+		Rule: "scripts: every ordered script of 2 statements over 26 statements (two clean ones, 12 payloads as the WHERE condition of a SELECT and of a DELETE) and of 3 statements over six of them - counts equal the findings listed for every API and threshold, and the tree scanner reports for a script exactly what it reports for its statements one by one; 18 payloads built from the documented ones (4 tautologies, 3 time-delay calls, 3 dangerous calls, 4 other spellings of those names, 4 nestings of one call inside the arguments of another) x every expression hole of the model grammar (condition payloads only in the 17 condition holes, each also as operand of AND / OR / NOT and inside redundant parentheses; call payloads in all 49 holes); unary-operator family: every chain (outermost first) of 1..2 (thorough 1..3) of the unary operators the parser accepts (-, +, NOT) holding at least one sign (10 / 36 chains) x payload directly under it / inside redundant parentheses x 3 places (whole condition, right operand of =, right operand of AND) = 60 (216) hosts for every payload in every condition position, and -x / +x / -(x) / +(x) for call payloads in every other expression position; oracle: reported in the same host without the operators => reported under them " +
 			"x 3 layouts (natural, one space everywhere, one lexeme per line with lower-case keywords and CRLF) x 4 severity thresholds x 3 scanner APIs (tree Scan, ScanSQL, the CLI text scanner); thorough adds every payload inside a second level of nesting (hole in hole). " +
 			"UNION probes (2/3/5 NULL columns; 9 system tables; 6 arms mixing NULLs with columns and call payloads) x UNION / UNION ALL x 8 hosts (top level, end of a chain, IN / EXISTS sub-query, CTE body, INSERT..SELECT, CREATE VIEW, second statement) x 3 spellings of the names (lower, upper, mixed) x 3 layouts x 4 thresholds x 3 APIs. " +
 			"Per API the canonical answer is that API's answer for 'SELECT c0 FROM t0 WHERE <payload>'. distinct = distinct (payload, position, wrapper); non-trivial = the tree API reports the payload in the canonical position",
@@ -613,21 +693,29 @@ func Check() *common.Check {
 			for _, p := range payloads() {
 				p := p
 				ws := wrappers
+				// the unary-operator family: chains of up to 2 (thorough: 3) operators in every condition host; in the
+				// other expression positions a call payload directly under one operator
+				maxChain := 2
+				if e.Thorough() {
+					maxChain = 3
+				}
+				uws := unaryWrappers(maxChain, true)
+				uwsExpr := unaryWrappers(1, false)
 				for _, ps := range positions {
 					ps := ps
 					isCond := condHole[ps.name] || strings.HasPrefix(ps.name, "nested:")
 					if p.cond && !isCond {
 						continue
 					}
-					pws := ws
+					pws := append(append([]wrapper{}, ws...), uws...)
 					if !p.cond {
 						if isCond {
 							// a call used as (part of) a condition: every boolean wrapper plus comparison operands
-							pws = append(append([]wrapper{}, ws...),
-								wrapper{"cmp-left", func(q sqlgen.X) sqlgen.X { return sqlgen.Bin("=", q, sqlgen.Int("0")) }},
-								wrapper{"cmp-right", func(q sqlgen.X) sqlgen.X { return sqlgen.Bin("=", sqlgen.Int("0"), q) }})
+							pws = append(pws,
+								wrapper{name: "cmp-left", f: func(q sqlgen.X) sqlgen.X { return sqlgen.Bin("=", q, sqlgen.Int("0")) }},
+								wrapper{name: "cmp-right", f: func(q sqlgen.X) sqlgen.X { return sqlgen.Bin("=", sqlgen.Int("0"), q) }})
 						} else {
-							pws = ws[:1]
+							pws = append(append([]wrapper{}, ws[:1]...), uwsExpr...)
 						}
 					}
 					for _, w := range pws {
@@ -689,7 +777,17 @@ func Check() *common.Check {
 									}
 									if l == sqlgen.LNatural {
 										natural = m
-										if !superset(m, cm) {
+										underUnary := false
+										if w.plain != nil && !superset(m, cm) {
+											// unary-operator family: the payload is reported in the same host without the operators
+											plainSQL := ps.fill(w.plain(p.x())).SQL()
+											if pks, _, perr, ppan := safeScan(a, plainSQL, security.SeverityLow); perr == nil && ppan == "" && superset(multiset(pks), cm) {
+												underUnary = true
+												ok = false
+												c.Fail("not-closed:"+a.name+":"+p.class+"@under-unary-operator", fmt.Sprintf("payload %s is reported (%s) in %s\n but under the unary operator(s) only %s:\n %s", p.name, show(cm), plainSQL, show(m), sql))
+											}
+										}
+										if !superset(m, cm) && !underUnary {
 											ok = false
 											c.FailFeat("C16", "not-closed:"+a.name+":"+p.class, append(strings.Split(ps.name, "+"), "wrap:"+w.name), fmt.Sprintf("payload %s reported as %s in the canonical position but only %s here:\n %s", p.name, show(cm), show(m), sql))
 										}
